@@ -1,9 +1,114 @@
-import Rs1090.Proofs.Decode.Wp
+/-
+BDS 2,1 reader: panic-freedom (C01), serialisation (C07), ranges (C08) — for every reader state.
+-/
+import Rs1090.Proofs.Decode.Bds10
 import Rs1090.Model.Decode.Bds21
 namespace Rs1090.Model.Bds21
-open Rs1090 Rs1090.Model
+open Rs1090 Rs1090.Model Rs1090.Model.CommbA
+open Rs1090.Gen.Chars21 (charLookup21 regLen airlineLen)
 
-/-- STUB proof for the STUB reader (replaced together with the model) -/
-theorem read_noPanic : NoPanic read := by unfold read; exact noPanic_fail _
+/-- obligation on the GENERATED table: every 6-bit code is a valid index -/
+theorem charLookup_len : charLookup21.length = 64 := by decide
+
+/-- the character loop: no panic, every collected code is a 6-bit value -/
+theorem readCodes_wp (k : Nat) (Q : List Nat → Rd → Prop) (s : Rd)
+    (h : ∀ cs s', (∀ c ∈ cs, c < 64) → Q cs s') : wp (readCodes k) Q s := by
+  induction k generalizing Q s with
+  | zero => unfold readCodes; rw [wp_pure]; exact h _ _ (by simp)
+  | succ k ih =>
+    unfold readCodes
+    rw [wp_bind]; apply wp_bits_any; intro c s1 hc
+    rw [wp_bind]; apply ih; intro cs s2 hcs
+    rw [wp_pure]; apply h
+    intro x hx
+    split at hx
+    · rcases List.mem_cons.mp hx with rfl | hx
+      · simpa using hc
+      · exact hcs x hx
+    · exact hcs x hx
+
+/-- `CHAR_LOOKUP[b as usize]` is in bounds for 6-bit codes -/
+theorem encode_noPanic : ∀ cs : List Nat, (∀ c ∈ cs, c < 64) → (encode cs).isPanic = false
+  | [], _ => rfl
+  | c :: rest, h => by
+    have hc : c < 64 := h c (by simp)
+    have ih := encode_noPanic rest (fun x hx => h x (by simp [hx]))
+    unfold encode
+    have : idx charLookup21 c = .ok (charLookup21[c]'(by rw [charLookup_len]; exact hc)) := by
+      unfold idx
+      rw [List.getElem?_eq_getElem (by rw [charLookup_len]; exact hc)]
+    show (Outcome.bind _ _).isPanic = false
+    rw [this, Outcome.bind_ok]
+    show (Outcome.bind _ _).isPanic = false
+    cases hr : encode rest with
+    | ok r => rw [Outcome.bind_ok]; rfl
+    | err e => rw [Outcome.bind_err]; rfl
+    | panic x => rw [hr] at ih; simp [Outcome.isPanic] at ih
+
+theorem aircraftRegistration_noPanic (status : Bool) (codes : List Nat) (h : ∀ c ∈ codes, c < 64) :
+    (aircraftRegistration status codes).isPanic = false := by
+  have he := encode_noPanic codes h
+  unfold aircraftRegistration
+  show (Outcome.bind _ _).isPanic = false
+  cases hr : encode codes with
+  | ok enc =>
+    rw [Outcome.bind_ok]
+    cases status
+    · simp only [Bool.false_eq_true, if_false]; split <;> rfl
+    · simp only [if_true]; split <;> rfl
+  | err e => rw [Outcome.bind_err]; rfl
+  | panic x => rw [hr] at he; simp [Outcome.isPanic] at he
+
+theorem airlineRegistration_noPanic (status : Bool) (codes : List Nat) (h : ∀ c ∈ codes, c < 64) :
+    (airlineRegistration status codes).isPanic = false := by
+  have he := encode_noPanic codes h
+  unfold airlineRegistration
+  show (Outcome.bind _ _).isPanic = false
+  cases hr : encode codes with
+  | ok enc =>
+    rw [Outcome.bind_ok]
+    cases status
+    · simp only [Bool.false_eq_true, if_false]; split <;> rfl
+    · rfl
+  | err e => rw [Outcome.bind_err]; rfl
+  | panic x => rw [hr] at he; simp [Outcome.isPanic] at he
+
+/-- C01 -/
+theorem read_noPanic : NoPanic read := by
+  intro s
+  unfold NoPanicAt read
+  wp_run
+  apply readCodes_wp; intro codes s1 hcodes
+  rw [wp_bind]; apply wp_lift_of (aircraftRegistration_noPanic _ codes hcodes); intro reg _
+  wp_run
+  apply readCodes_wp; intro acodes s2 hacodes
+  rw [wp_bind]; apply wp_lift_of (airlineRegistration_noPanic _ acodes hacodes); intro airline _
+  wp_run
+
+/-- C07: `registration` is a string or `null`, `airline` a string or absent -/
+theorem read_serGood : ∀ s, wp read (fun r _ => SerGood [] r) s := by
+  intro s
+  unfold read
+  wp_run
+  apply readCodes_wp; intro codes s1 hcodes
+  rw [wp_bind]; apply wp_lift_of (aircraftRegistration_noPanic _ codes hcodes); intro reg _
+  wp_run
+  apply readCodes_wp; intro acodes s2 hacodes
+  rw [wp_bind]; apply wp_lift_of (airlineRegistration_noPanic _ acodes hacodes); intro airline _
+  wp_run
+  cases reg <;> cases airline <;> exact serGood_tagged _ _ _ rfl rfl
+
+/-- C08: neither key names a constrained quantity -/
+theorem read_rangeGood : ∀ s, wp read (fun r _ => RangeGood r) s := by
+  intro s
+  unfold read
+  wp_run
+  apply readCodes_wp; intro codes s1 hcodes
+  rw [wp_bind]; apply wp_lift_of (aircraftRegistration_noPanic _ codes hcodes); intro reg _
+  wp_run
+  apply readCodes_wp; intro acodes s2 hacodes
+  rw [wp_bind]; apply wp_lift_of (airlineRegistration_noPanic _ acodes hacodes); intro airline _
+  wp_run
+  cases reg <;> cases airline <;> exact rangeGood_tagged _ _ _ rfl
 
 end Rs1090.Model.Bds21
